@@ -477,6 +477,9 @@ def run(chk):
     check_formats(chk, sprintf_formats(chk, sb_tu))
     check_decoding(chk, tus, it, vts)
     check_positions(chk, tus, it, vts)
+    # the integer immediates of i32.const / i64.const are signed LEB128 numbers: the decoders must reproduce every bit
+    from . import c08
+    c08.check_decoders(chk, tus[2], rule='R07.5', only=('leb128ReadI32', 'leb128ReadI64'))
     chk.extra['abstract_cells'] = cells
     chk.floor('R07.1', 2)
     chk.floor('R07.4', 6)
